@@ -205,7 +205,7 @@ theorem payload {cfg : Cfg} {e : RustEnum} {ck : Str} {id : Id} {cs : List Str} 
 /-- **alias** (`type X = …` and newtype structs): a `typealias` of the translated type; with the
 `JvmInline` decorator, a value class whose single parameter follows the field rule -/
 theorem alias {cfg : Cfg} {a : RustTypeAlias} {d : KtDecl} (h : aliasFacts cfg a = .ok d) :
-    (isInline a.decorators = false ∧ ∃ ty, d = .typeAlias a.comments (cfg.pfx ++ a.id.original)
+    (isInline a.decorators = false ∧ ∃ ty, d = .typeAlias a.comments (cfg.pfx ++ a.id.renamed)
         (genericSuffix a.genericTypes) ty ∧ formatType cfg a.genericTypes a.ty = .ok ty) ∨
     (isInline a.decorators = true ∧ ∃ p, params d = [p] ∧
         isOptional p = a.ty.isOptional ∧ formatType cfg [] (stripOption a.ty) = .ok (stripOptional p)) := by
